@@ -31,7 +31,7 @@ mutual
       | none => simp only; exact findList?_valid b h ks t' hv.2
 end
 
-theorem rank_normal (c : Category) : 2 ≤ c.rank ↔ c = .normal := by
+theorem fa_rank_normal (c : Category) : 2 ≤ c.rank ↔ c = .normal := by
   cases c <;> simp [Category.rank]
 
 theorem kidsOrdered_last_normal : ∀ ks : List HTree, kidsOrdered ks = true →
@@ -48,7 +48,7 @@ theorem kidsOrdered_last_normal : ∀ ks : List HTree, kidsOrdered ks = true →
     · subst e
       refine ⟨b, List.mem_cons_self .., ?_⟩
       simp only [Value.isNormal, beq_iff_eq] at hn ⊢
-      rw [← rank_normal]
+      rw [← fa_rank_normal]
       rw [hn] at ho
       exact ho.1
     · exact ⟨k, e, hn⟩
